@@ -123,7 +123,7 @@ def record_real_calls(tier, seed, rep):
     def wrapper(self, char_pos, source=True):
         out = orig(self, char_pos, source)
         text = self.source_str if source else self.templated_str
-        key = (id(self), source)
+        key = (self.fname, text, source)   # keyed by content: object ids are reused after collection
         ent = calls.setdefault(key, {"text": text, "events": [], "fname": self.fname})
         if len(ent["events"]) < 400:
             ent["events"].append({"p": int(char_pos), "line": int(out[0]), "col": int(out[1])})
@@ -139,7 +139,7 @@ def record_real_calls(tier, seed, rep):
     finally:
         TemplatedFile.get_line_pos_of_char_pos = orig
     traces = []
-    for k, ((_, source), ent) in enumerate(sorted(calls.items(), key=lambda kv: (kv[1]["fname"], kv[0][1]))):
+    for k, ((_, _t, source), ent) in enumerate(sorted(calls.items(), key=lambda kv: (kv[0][0], kv[0][2], kv[0][1]))):
         lens = [len(x) for x in ent["text"].split("\n")]
         traces.append({"id": f"t{k}", "file": ent["fname"], "side": "source" if source else "templated",
                        "lens": lens, "events": ent["events"]})
